@@ -1019,6 +1019,27 @@ class Interp:
             self.note(fr, "return inside an unmodelled loop", e)
         return (UNIT, env)
 
+    def plain_integer_code(self, node):
+        """no calls or overloaded operators other than core integer / conversion / slice / array primitives"""
+        if isinstance(node, dict):
+            c = node.get("callee")
+            if isinstance(c, dict):
+                pth = c.get("path", "")
+                if not re.match(r"core::(num|convert|slice|array|ops::index|ops::bit|ops::arith|cmp|iter|mem|clone)\b", pth):
+                    return False
+                inst = c.get("inst") or {}
+                if inst.get("local"):
+                    return False
+            if node.get("k") == "Call":
+                f = node.get("f") or {}
+                r = f.get("r") or {}
+                if r.get("res") == "Def" and not str((r.get("callee") or {}).get("path", "core::")).startswith("core::") and not str(r.get("dk", "")).startswith("Ctor"):
+                    return False
+            return all(self.plain_integer_code(v) for v in node.values())
+        if isinstance(node, list):
+            return all(self.plain_integer_code(v) for v in node)
+        return True
+
     def assigned_locals(self, node, acc=None):
         if acc is None:
             acc = set()
@@ -1082,7 +1103,10 @@ class Interp:
         it, env = r
         self.cur_env = env
         seq = self.S.concrete_seq(self, it)
-        if seq is not None and len(seq) <= self.opts.get("unroll_max", UNROLL_MAX):
+        lim = self.opts.get("unroll_max", UNROLL_MAX)
+        if seq is not None and lim < len(seq) <= 64 and self.plain_integer_code(body):
+            lim = 64        # byte / limb plumbing over a constant range: primitive integer and array code only, cheap and exact to unroll
+        if seq is not None and len(seq) <= lim:
             cur = env
             for item in seq:
                 fr.loops.append({"brk": [], "cont": []})
